@@ -148,7 +148,7 @@ func Damage(r *core.Rng, src string) (string, string) {
 		}
 		return ix
 	}
-	switch op := r.Intn(18); op {
+	switch op := r.Intn(20); op {
 	case 0: // truncate at a byte
 		if len(src) == 0 {
 			return src, "truncate(empty)"
@@ -336,6 +336,54 @@ func Damage(r *core.Rng, src string) (string, string) {
 			tail = append(tail, core.Pick(r, opener))
 		}
 		return head + " " + strings.Join(tail, " "), fmt.Sprintf("cut-inside-construct(+%d tokens)", len(tail))
+	case 17, 18: // wrong arity: duplicate, drop or leave dangling one argument of a call
+		// find "name(" ... ")" on one line
+		var calls [][2]int
+		for i := 0; i+1 < len(toks); i++ {
+			if toks[i+1] != "(" || strings.TrimSpace(toks[i]) == "" || !(toks[i][0] == '_' || unicode.IsLetter(rune(toks[i][0]))) {
+				continue
+			}
+			depth := 0
+			for j := i + 1; j < len(toks) && !strings.Contains(toks[j], "\n"); j++ {
+				if toks[j] == "(" {
+					depth++
+				} else if toks[j] == ")" {
+					depth--
+					if depth == 0 {
+						calls = append(calls, [2]int{i + 1, j})
+						break
+					}
+				}
+			}
+		}
+		if len(calls) == 0 {
+			return src, "noop"
+		}
+		c := core.Pick(r, calls)
+		inner := strings.Join(toks[c[0]+1:c[1]], "")
+		var repl string
+		kind := r.Intn(5)
+		switch {
+		case kind == 0 || strings.TrimSpace(inner) == "":
+			repl = inner + core.Pick(r, []string{"1", "x, y", "\"s\"", "none", "1, 2, 3"})
+			if strings.TrimSpace(inner) != "" {
+				repl = inner + ", " + core.Pick(r, []string{"1", "x", "\"s\"", "1, 2, 3"})
+			}
+		case kind == 1: // duplicate the argument list
+			repl = inner + ", " + inner
+		case kind == 2: // dangling comma
+			repl = inner + ", "
+		case kind == 3: // drop everything after the first comma (too few)
+			if k := strings.Index(inner, ","); k >= 0 {
+				repl = inner[:k]
+			} else {
+				repl = ""
+			}
+		default: // no arguments at all
+			repl = ""
+		}
+		out := strings.Join(toks[:c[0]+1], "") + repl + strings.Join(toks[c[1]:], "")
+		return out, fmt.Sprintf("arity(%d)", kind)
 	default: // join two statements / split a line
 		lines := strings.Split(src, "\n")
 		if len(lines) < 2 {
